@@ -192,25 +192,26 @@ class Prop:
                         ens.append((name + '__pinned', '!(%s) || (%s)' % (f.S, f.pinned)))
                 else:
                     ens.append((name, e))
-            jid0 = re.sub(r'[^A-Za-z0-9_]', '_', c.fn)[:80] + '_' + hashlib.md5(c.fn.encode()).hexdigest()[:6]
+            ckey = c.fn + '@' + c.build
+            jid0 = re.sub(r'[^A-Za-z0-9_]', '_', c.fn)[:80] + '_' + hashlib.md5(ckey.encode()).hexdigest()[:6]
             if c.kind == 'R':
-                jobs.append({'kind': 'R', 'id': jid0, 'fn': c.fn, 'll': b.ll, 'sig': sig, 'requires': c.requires, 'ensures': ens,
+                jobs.append({'kind': 'R', 'id': jid0, 'key': ckey, 'fn': c.fn, 'll': b.ll, 'sig': sig, 'requires': c.requires, 'ensures': ens,
                              'timeout': c.timeout, 'timeout_s': c.timeout, 'workdir': wd})
-                jobmeta[c.fn] = (c, sig, ens, fnd)
+                jobmeta[ckey] = (c, sig, ens, fnd)
                 continue
             text, lines = harness_text(c, sig, '@@GEN@@', ensures_override=ens)
-            jid = re.sub(r'[^A-Za-z0-9_]', '_', c.fn)[:80] + '_' + hashlib.md5(c.fn.encode()).hexdigest()[:6]
+            jid = jid0
             uses_ir = []
             for u in c.uses:
                 uses_ir.append(u)
-            job = {'id': jid, 'fn': c.fn, 'fn_ir': fn_ir, 'uses_ir': uses_ir, 'build': b.tag, 'text': text, 'lines': lines,
+            job = {'id': jid, 'key': ckey, 'fn': c.fn, 'fn_ir': fn_ir, 'uses_ir': uses_ir, 'build': b.tag, 'text': text, 'lines': lines,
                    'workdir': wd, 'replace': c.replace, 'backends': list(c.backends), 'unwind': c.unwind,
                    'timeout': c.timeout if tier == 'quick' else max(c.timeout, 900), 'in_names': [n for t, n in sig['ins']],
                    'cbmc_flags': list(c.flags), 'poison_flags': c.poison_flags, 'uf_float': list(getattr(c, 'uf_float', ()))}
             if c.kind == 'U':
                 job['cbmc_flags'] = job['cbmc_flags'] + ['--pointer-check', '--bounds-check']
             jobs.append(job)
-            jobmeta[c.fn] = (c, sig, ens, fnd)
+            jobmeta[ckey] = (c, sig, ens, fnd)
             sfnd = {k: f for k, f in fnd.items() if k.startswith('safety:')}
             if sfnd:
                 text2, lines2 = harness_text(c, sig, '@@GEN@@', extra_requires=['!(%s)' % f.S for f in sfnd.values()], ensures_override=ens)
@@ -225,23 +226,27 @@ class Prop:
                 r = fu.result()
                 if futs[fu].get('variant') == 'outsideS':
                     r['variant'] = 'outsideS'
-                    results_x[r['fn']] = r
+                    results_x[futs[fu]['key']] = r
                 else:
-                    results[r['fn']] = r
+                    results[futs[fu]['key']] = r
                 log('[%s] %s %s %.1fs %s' % (r['status'], r['fn'], r.get('backend'), r['seconds'],
                                             ' '.join('%s=%s' % kv for kv in r['clauses'].items()) + ' ' + r['detail'][:300]))
 
         # ---------------- verdicts
         obligations = []   # dicts
+        multi = {}
+        for c in contracts:
+            multi[c.fn] = multi.get(c.fn, 0) + 1
         violations = []
         pending = []
         known_lines = []
         undecided = list(infra)
         for c in contracts:
-            if c.fn not in results:
+            ckey = c.fn + '@' + c.build
+            if ckey not in results:
                 continue
-            r = results[c.fn]
-            c_, sig, ens, fnd = jobmeta[c.fn]
+            r = results[ckey]
+            c_, sig, ens, fnd = jobmeta[ckey]
             if r['status'] != 'done':
                 undecided.append('%s: %s %s' % (c.fn, r['status'], r['detail'][:500]))
                 continue
@@ -254,7 +259,7 @@ class Prop:
                 continue
 
             def ob(name, status, **kw):
-                d = {'id': '%s.%s' % (c.fn, name), 'kind': c.kind, 'backend': r['backend'], 'seconds': round(r['seconds'], 2),
+                d = {'id': '%s%s.%s' % (c.fn, ('[%s]' % c.build) if multi.get(c.fn, 0) > 1 else '', name), 'kind': c.kind, 'backend': r['backend'], 'seconds': round(r['seconds'], 2),
                      'status': status, 'real': c.real, 'build': c.build}
                 if c.bounded:
                     d['bounded'] = c.bounded
@@ -273,7 +278,7 @@ class Prop:
                     continue
                 f = fnd.get(nm)
                 if f is not None:
-                    rx = results_x.get(c.fn)
+                    rx = results_x.get(ckey)
                     okx = rx is not None and rx['status'] == 'done' and rx['clauses'].get('__canary') == 'FAILURE' and \
                         all(st == 'SUCCESS' for (_, d2, st) in rx['safety'] if safety_key(d2) == key)
                     if okx:
@@ -401,11 +406,14 @@ class Prop:
         trusted = set(['clang++-14 lowering at the stated flags', 'tools/ll2c.py (guarded by T-check + canaries)',
                        'CBMC 6.11 + goto-instrument --dfcc', 'SAT/SMT back ends'])
         fns = {}
+        multi_b = {}
         for c in contracts:
-            r = results.get(c.fn)
+            multi_b[c.fn] = multi_b.get(c.fn, 0) + 1
+        for c in contracts:
+            r = results.get(c.fn + '@' + c.build)
             if not r:
                 continue
-            fns[c.fn] = {'real': c.real, 'build': c.build, 'mode': self.builds[c.build].mode, 'kind': c.kind,
+            fns[c.fn + ('@' + c.build if multi_b.get(c.fn, 0) > 1 else '')] = {'real': c.real, 'build': c.build, 'mode': self.builds[c.build].mode, 'kind': c.kind,
                          'backend': r.get('backend'), 'seconds': round(r.get('seconds', 0), 2), 'solver_s': r.get('solver_s', 0),
                          'status': r.get('status'), 'replaced_callees': c.replace}
             for t in (r.get('translate') or {}).get('trusted', []):
